@@ -615,6 +615,12 @@ impl<A: Send + 'static> Cell<A> {
                                     Some(sa) => sa,
                                     None => return,
                                 };
+                                // The new inner cell may have been built in this very transaction (by the
+                                // mapping function that feeds the cell of cells): let what it consists of
+                                // finish its set-up (a switch inside it attaches to its inner stream in a
+                                // closure queued for the end of the transaction) before it is visited here,
+                                // or it is marked visited while still unconnected and loses this event.
+                                sodium_ctx.run_pre_eot();
                                 // will be overwriten by node2 firing if there is one
                                 sodium_ctx.update_node(firing.updates().node());
                                 sa._send(firing.sample());
